@@ -566,6 +566,17 @@ theorem reads_independent_of_history {α} (z : α) (lut : List LutRow) (frames :
       steps.map (fun q => (stepRead z lut frames R C th tw full am q none).2) :=
   runHistory_indep z lut frames R C th tw full am steps st
 
+/-- **What a read leaves in the connection** (state machine, one step; by `reads_independent_of_history` none of it matters to later
+reads): the state it found — it was refused before the look-up was set up —, no table — it completed, or the source cleans up in
+a `finally` —, the table of this request — it was refused inside the `with` block —, or an empty table — SQLite refused its rows
+(repeated output channel index). -/
+theorem temp_table_state_after_read {α} (z : α) (lut : List LutRow) (frames : List (Img α)) (R C th tw : Int) (full am : Bool)
+    (q : ChanRead) (st : TempState) :
+    (stepRead z lut frames R C th tw full am q st).1 = st ∨ (stepRead z lut frames R C th tw full am q st).1 = none ∨
+    (stepRead z lut frames R C th tw full am q st).1 = some q.data ∨ (stepRead z lut frames R C th tw full am q st).1 = some [] :=
+  stepRead_state_cases z lut frames R C th tw full am q st
+
+
 /-- **Region assembly for several segments at once** (`segment_numbers = segs`: any subset of the segments, in any order): in a
 table that passes the uniqueness test and in which the rows of every requested segment hold exactly the grid tiles (any frame
 order, channels interleaved in any way) with frames cut from that segment's matrix, output channel `n` of the read is
@@ -811,5 +822,9 @@ example : (⟨3, 1, 7, 2⟩ : LutRow) ∈ ((joinRows (([⟨3, 1, 7, 2⟩, ⟨3, 
   · rw [selected_frames_exact_channels _ [2, 1] 0 2 rfl 4 6 1 4 2 3 (by decide) (by decide) (by decide) (by decide)]
     rintro ⟨_, h, _⟩
     exact absurd h (by decide)
+/-- the four outcomes occur: refused before the set-up / completed / refused inside the block / rows refused by SQLite -/
+example : runOps tempTableSetup [(1, 1), (1, 2)] (some [(0, 3)]) = (some [], some .other) ∧
+    runOps tempTableSetup [(0, 1), (1, 2)] (some [(0, 3)]) = (some [(0, 1), (1, 2)], none) ∧
+    runOps tempTableCleanup [] (some [(0, 1)]) = (none, none) := by decide
 
 end HdVerif.Examples.C04
